@@ -15,16 +15,69 @@ contract(M + "Variable.correct", params=dict(value="val"), returns="val", verify
                   ("members-unchanged", "implies(Dom(self, value), result is value)")],
          allocates=False, properties=[])
 
-contract(M + "Task.get_variables", returns="list[Variable]", verify=False,
-         assumed_reason="flattening comprehension (two generators): checked by the bounded law campaign (C14)",
-         ensures=[("fresh", "fresh(result)"), ("one-per-coordinate", "len(result) == " + DIM),
-                  ("flattened-in-order", "all(result[i] is flat(self, i) for i in range(" + DIM + "))")],
-         properties=[])
+# ---- abstract structure of a variable (refined by the seven classes: var_wf is their object invariant, C13 law campaign) -------
+VAR_ABS = "abstract method of Variable; the seven classes refine it (bodies are one-liners over the object invariant var_wf)"
+contract(M + "Variable.size", returns="int", verify=False, assumed_reason=VAR_ABS, allocates=False,
+         ensures=[("size", "result == vsize(self) and result >= 1")], properties=[])
+contract(M + "Variable.has_children", returns="bool", verify=False, assumed_reason=VAR_ABS, allocates=False,
+         ensures=[("kids", "result == kids(self)")], properties=[])
+contract(M + "Variable.get", returns={"when": "kids(self)", "then": "list[Variable]", "else": "Variable"}, verify=False,
+         assumed_reason=VAR_ABS, allocates=False,
+         ensures_when={"then": [("children", "len(result) == vsize(self) and all(result[r] is child(self, r) for r in range(vsize(self)))")],
+                       "else": [("itself", "result is self")]},
+         ensures=[("pure", "heap_unchanged()")], properties=[])
+contract(M + "Variable.randomize", returns={"when": "kids(self)", "then": "list[val]", "else": "val"}, verify=False,
+         assumed_reason=VAR_ABS + "; members of the domain by the randomize contracts of the concrete classes (C13)", assigns=["rng"],
+         ensures_when={"then": [("one-per-child", "fresh(result) and len(result) == vsize(self) and all(Dom(child(self, r), result[r]) and"
+                                                  " not isnanv(result[r]) for r in range(vsize(self)))")],
+                       "else": [("member", "Dom(self, result) and not isnanv(result)")]},
+         ensures=[("pure", "heap_unchanged()")], properties=[])
 
-contract(M + "Task.empty_solution", returns="list[val]", verify=False, assigns=["rng"],
-         assumed_reason="flattening comprehension over randomize(): members by the randomize contracts (C13); bounded law campaign (C14)",
+contract(M + "Variable.get_bounds", returns={"when": "kids(self)", "then": "tuple[list[val], list[val]]", "else": "tuple[val, val]"},
+         verify=False, assumed_reason=VAR_ABS, allocates=True,
+         ensures_when={"then": [("one-pair-per-coordinate", "len(result[0]) == vsize(self) and len(result[1]) == vsize(self) and"
+                                 " all(result[0][r] is cbound_lo(self, r) and result[1][r] is cbound_hi(self, r) for r in range(vsize(self)))")],
+                       "else": [("own-pair", "result[0] is cbound_lo(self, 0) and result[1] is cbound_hi(self, 0)")]},
+         ensures=[("pure", "heap_unchanged()")], properties=[])
+
+contract(M + "Task.validate_objective_weights", returns="Task", verify=False, allocates=False,
+         assumed_reason="pydantic model validator written with numpy (np.all(np.array(w) >= 0)): bounded law campaign (C06 scenarios)",
+         raises={"ValueError": "self.objective_weights is not None and has_negative(self.objective_weights)"},
+         ensures=[("same", "result is self"), ("pure", "heap_unchanged()")], properties=[])
+
+contract(M + "Task.__init__",
+         params=dict(kwargs='{"variables": "list[Variable]", "minmax?": "TaskType", "seed?": "opt[int]", "objective_weights?": "opt[list[float]]"}'),
+         cases=[{"has_minmax": True, "has_seed": True, "has_objective_weights": True},
+                {"has_minmax": False, "has_seed": False, "has_objective_weights": False}],
+         lets={"VS0": "kwargs['variables']"},
+         raises={"ValueError": "has_key(kwargs, 'objective_weights') and kwargs['objective_weights'] is not None and"
+                               " has_negative(kwargs['objective_weights'])"},
+         assigns=["self.variables", "self.space_dimension", "self.minmax", "self.seed", "self.objective_weights", "self.data", "self._EPS"],
+         ensures=[("dimension-is-the-sum-of-the-sizes", "self.space_dimension == sumsizes(VS0)"),
+                  ("variables-kept-in-order", "len(self.variables) == len(VS0) and all(self.variables[j] is VS0[j] for j in range(len(VS0)))"),
+                  ("caller-list-untouched", "unchanged(VS0)")],
+         properties=["C14"])
+
+TASK_INV = ["task_wf(self)"]
+contract(M + "Task.get_bounds", returns="tuple[nd[val], nd[val]]", entry_invariants=TASK_INV,
+         locals=dict(lb="list[val]", ub="list[val]"),
+         invariants={"loop1": ["len(lb) == off(self, loop1_i) and len(ub) == off(self, loop1_i)",
+                               "all(lb[i] is blo(self, i) and ub[i] is bhi(self, i) for i in range(off(self, loop1_i)))",
+                               "lb is not ub and loop1_seq is self.variables"]},
+         ensures=[("one-pair-per-coordinate", "len(result[0]) == " + DIM + " and len(result[1]) == " + DIM),
+                  ("own-variable-bounds", "all(result[0][i] is blo(self, i) and result[1][i] is bhi(self, i) for i in range(" + DIM + "))"),
+                  ("pure", "heap_unchanged()")],
+         properties=["C14"])
+
+contract(M + "Task.get_variables", returns="list[Variable]", entry_invariants=TASK_INV,
+         ensures=[("fresh", "fresh(result)"), ("one-per-coordinate", "len(result) == " + DIM),
+                  ("flattened-in-order", "all(result[i] is flat(self, i) for i in range(" + DIM + "))"),
+                  ("pure", "heap_unchanged()")],
+         properties=["C14"])
+
+contract(M + "Task.empty_solution", returns="list[val]", assigns=["rng"], entry_invariants=TASK_INV,
          ensures=[("fresh", "fresh(result)"), ("in-space", "Space(self, result)"), ("nanfree", "nanfree(self, result)")],
-         properties=[])
+         properties=["C14", "C01"])
 
 contract(M + "Task.objective_function", params=dict(x="list[val]"),
          returns={"case": "__obj__", "scalar": "float", "list": "list[float]", "default": "scalar"}, verify=False,
